@@ -35,6 +35,11 @@ func (r *Decoder) captureOpenBlankNode(uncommitted cursorio.DecodedRuneList) (rd
 	for {
 		r0, err := r.buf.NextRune()
 		if err != nil {
+			if errors.Is(err, io.EOF) {
+				// the label ends with the input; a final '.' is handed back below
+				goto DONE
+			}
+
 			return nil, nil, grammar.R_BLANK_NODE_LABEL.Err(r.newOffsetError(err, uncommitted.AsDecodedRunes(), cursorio.DecodedRunes{}))
 		}
 
